@@ -1,7 +1,7 @@
 (* Extraction of the codec / operations model for the correspondence checks (ExtrOcamlBasic only). *)
 From Coq Require Import Extraction ExtrOcamlBasic ZArith List.
 From GS Require Import Model.Base Gen.Constants Model.Ber Model.Pdu Model.Buffer Model.OidText Model.Exc
-  Gen.ErrorMap Model.Ops.
+  Gen.ErrorMap Model.Ops Model.Walk Model.PyLayer.
 Extraction Language OCaml.
 Extraction "../ocaml/codec_model.ml"
   parse_header value_from_ber
@@ -14,4 +14,6 @@ Extraction "../ocaml/codec_model.ml"
   push_int push_oid push_pdu push_cmsg push_v3 push_usm push_scoped
   get_to_python getmany_to_python getiter_new getnext_to_python getbulk_to_python err_to_exc
   c_unwrap c_recv_loop
+  getnext_walk getbulk_walk fetch_walk effective_max_rep
+  run_api
   Z.add Z.mul Z.sub Z.opp Z.div_eucl Z.of_nat Z.compare Z.to_nat.
